@@ -21,7 +21,7 @@ RULE = ("sessions of 1-30 client messages (didOpen/didChange/didClose, hover, de
 
 TIERS = {
     "quick": {"runs": 520, "wall_cap": 230},
-    "thorough": {"runs": 12000, "wall_cap": 3400, "reexecute": 60},
+    "thorough": {"runs": 9000, "wall_cap": 3400, "reexecute": 60},
 }
 FAULT_KINDS = ["disk_write", "disk_remove", "disk_mkdir_over", "disk_nonutf8", "disk_create", "proto_duplicate_open", "proto_change_unopened",
                "proto_close_unopened", "proto_empty_change", "proto_multi_change", "proto_cancel", "proto_unknown_notification",
